@@ -140,6 +140,13 @@ class C08(Prop):
         "avg_score_is_mean", "avg_score_nonresidue", "expect_score_is_weighted_mean", "count_splits_equally", "degen_set_examples",
         "custom_create_wf", "custom_alphabets_wf", "custom_digitize_textize_digitize",
         "dsqcat_spec", "dsqcat_appends_digitization", "std_inmap_clean", "sq_text_complement_table", "sq_text_revcomp_agrees", "cdealign_spec", "xdealign_spec", "custom_create_wfdegen", "custom_inmap_ops_keep_degen", "match_formula", "match_easy_cases", "setdegeneracy_keeps_ndegen", "avg_scvec_spec", "guess_alphabet_basic",
+        "guess_never_on_small", "guess_dna_guarantee", "guess_rna_guarantee", "guess_amino_guarantee", "guess_amino_iff_giveaway",
+        "guess_aaonly_decides", "sq_guess_counts",
+        "type_roundtrip", "type_unknown_strings", "type_encode_sound", "type_mem_agrees", "type_validate", "type_tables_regenerated",
+        "sq_text_switch_regenerated", "sq_text_revcomp_every_symbol", "sq_text_switch_covers_alphabet",
+        "validateseq_spec", "sq_digitize_spec", "convert_degen2x_spec", "expect_scvec_spec",
+        "custom_history_wf", "custom_history_order", "custom_create_setequiv_status", "custom_setdegeneracy_caseins_status",
+        "sq_add_residue_spec", "sq_count_residues_spec", "sq_checksum_ascii",
     )]
     claimed = True
     technique = ("Lean 4 proof: table theorems closed by `decide` over the whole regenerated tables (vs a hand-written IUPAC statement), "
@@ -151,13 +158,18 @@ class C08(Prop):
                   "complements the set. Theorems for EVERY alphabet and EVERY byte string (induction, no length bound): Digitize = sentinel + code of "
                   "each non-ignored character + sentinel with eslEINVAL iff some character is outside the alphabet ('any' substituted, bytes >= 0x80 "
                   "included); Textize spells codes; Digitize.Textize.Digitize = Digitize for well-formed alphabets; textize(digitize s) = canonical "
-                  "spelling for the 5 built-in alphabets; the in-place swap loop of esl_abc_revcomp = reverse+complement and is an involution; over Q the AvgScore/ExpectScore loops compute the (weighted) mean over the degeneracy set and Count splits the weight equally; every custom alphabet built by CreateCustom + SetEquiv/SetCaseInsensitive/SetDegeneracy/SetIgnored is well-formed (so all conversion theorems apply to it), and CreateCustom's degeneracy tables are well-formed; esl_abc_dsqcat_noalloc = appending the digitisation (never the eslEINCONCEIVABLE exception for a clean input map); the in-place CDealign/XDealign loops keep exactly the columns of non-gap non-missing reference positions; the text-mode switch of esl_sq_ReverseComplement agrees with the digital complement table. "
+                  "spelling for the 5 built-in alphabets; the in-place swap loop of esl_abc_revcomp = reverse+complement and is an involution; over Q the AvgScore/ExpectScore loops compute the (weighted) mean over the degeneracy set and Count splits the weight equally; every custom alphabet built by CreateCustom + SetEquiv/SetCaseInsensitive/SetDegeneracy/SetIgnored is well-formed (so all conversion theorems apply to it), and CreateCustom's degeneracy tables are well-formed; esl_abc_dsqcat_noalloc = appending the digitisation (never the eslEINCONCEIVABLE exception for a clean input map); the in-place CDealign/XDealign loops keep exactly the columns of non-gap non-missing reference positions; the text-mode switch of esl_sq_ReverseComplement (regenerated from the code on all 256 bytes) agrees with the digital complement table for every symbol in both cases; "
+                  "esl_abc_GuessAlphabet: an answer DNA/RNA/amino implies the documented thresholds on the counted composition, never an answer on <= 10 residues, amino iff an amino-only letter occurs (the third documented rule is unreachable); Encode/DecodeType round trip, unknown strings => eslUNKNOWN, ValidateType; "
+                  "ValidateSeq status/count/first position/message; esl_sq_Digitize keeps n; ConvertDegen2X; Avg and Expect ScVec fill exactly the degenerate slots; "
+                  "WF and the order convention are invariants of every history of constructor calls, with the documented statuses of each call; XAddResidue/CAddResidue never store outside the allocation; CountResidues = sum of equal splits. "
                   "The hand model is tied to the tree by an exact differential run (all single bytes, random strings up to 10^4, custom alphabets).")
     level_note = ("Trusted: Lean kernel + propext/Classical.choice/Quot.sound; table dumper; fidelity of the hand model is checked (not proved) by the "
                   "differential run; score/count averaging is compared bit-exactly (binary64/binary32) and monitored against the exact mean; "
-                  "esl_abc_GuessAlphabet (model mirrors the double comparisons; only elementary theorems), the *ScVec wrappers, esl_abc_ValidateSeq "
-                  "(status and message) are modelled and tied by the differential run; EncodeType/DecodeType are not modelled; the integer rounding of "
-                  "IAvgScore/IExpectScore is tied by the differential run only.")
+                  "esl_abc_GuessAlphabet: theorems are about the integer form of the 2% tests (50*d <= n), which the driver runs next to the "
+                  "binary64 form on every composition (agreement for |n| < 2^40 is an IEEE fact, not a theorem); the counting loop of "
+                  "esl_sq_GuessAlphabet is proved for <= 10000 letters (the cutoff case is tied by the differential run); the integer rounding of "
+                  "IAvgScore/IExpectScore and the I*ScVec wrappers, esl_sq_Checksum's value, esl_sq_Grow's allocation sizes are tied by the "
+                  "differential run only; text-mode esl_sq_CountResidues is not modelled (it dereferences sq->abc, NULL for text sequences).")
     diverge_is_violation = True
     trusted_base = ["table dumper translate/tables_alphabet.py (prints the fields of esl_alphabet_Create() of the working tree)",
                     "hand model of esl_alphabet.c conversion loops and constructors tied by exact differential run (h_alphabet.c, ASan+UBSan)",
@@ -200,6 +212,11 @@ class C08(Prop):
                 ops.append("dcount x=%d wt=%s sc=%s" % (x, dbits(1.0), ",".join(dbits(0.0) for _ in range(K + 1))))
                 ops.append("iavg x=%d sc=%s" % (x, ",".join(str(3 * i - 7) for i in range(K))))
             out.append({"name": "scores-%s" % name, "ops": ops, "sticky": 1})
+        tops = []
+        for nm in (b"amino", b"rna", b"dna", b"coins", b"dice", b"custom", b"unknown", b"RNA", b"DNA", b"Amino", b"CUSTOM", b"", b"dnax", b"dn"):
+            tops += ["enctype hex=%s" % hx(nm), "enctypemem hex=%s" % hx(nm)]
+        tops += ["dectype t=%d" % t for t in range(-2, 10)] + ["valtype t=%d" % t for t in range(-2, 10)]
+        out.append({"name": "type-codes", "ops": tops, "sticky": 0})
         out.append({"name": "utest-custom", "sticky": 1, "ops": [
             "custom sym=%s K=20" % hx(b"ACDEFGHIKLMNPQRSTVWY-BJZX*~"), "equiv s=79 c=75", "equiv s=85 c=83", "caseins",
             "degen c=90 ds=%s" % hx(b"QE"), "dump", "digitize hex=%s" % hx(b"AaU-~Z"), "textize", "redigitize"]})
@@ -366,7 +383,84 @@ class C08(Prop):
             ops.append("validateseq hex=%s%s" % (hx(sq), " noabc=1" if rng.random() < 0.25 else ""))
         if rng.random() < 0.5:
             ops.append("guess ct=%s" % ",".join(map(str, self.rand_counts(rng))))
+        if rng.random() < 0.25:
+            ops.append("sqguess hex=%s" % hx(bytes(c for c in self.guess_text(rng) if c != 0)))
+        if rng.random() < 0.3:
+            ops += self.type_ops(rng)
+        if rng.random() < 0.3:
+            ops += self.sq_ops(rng, K, Kp)
         return ops
+
+    def sq_ops(self, rng, K, Kp):
+        """esl_sq_XAddResidue / CAddResidue (lengths around the 256-cell allocation chunk and its doublings), esl_sq_Checksum,
+        esl_sq_CountResidues (start / L at and just outside the sequence), esl_sq_ConvertDegen2X"""
+        ops = []
+        for _ in range(rng.randrange(1, 3)):
+            n = rng.choice([0, 1, 2, 5, 30, rng.randrange(0, 100), 253, 254, 255, 256, 257, 509, 510, 511, 512, 513, rng.randrange(0, 1500)])
+            r = rng.random()
+            if r < 0.5: pool = list(range(K)) * 4 + list(range(Kp))
+            elif r < 0.8: pool = list(range(Kp))
+            else: pool = list(range(K, Kp))
+            codes = [rng.choice(pool) for _ in range(n)]
+            if rng.random() < 0.1 and n: codes[rng.randrange(n)] = 255        # a premature sentinel is overwritten by the next residue
+            nn = len([c for c in codes if c != 255])
+            op = "sqxadd codes=%s" % hx(codes)
+            if rng.random() < 0.6:
+                start = rng.choice([-1, 0, 1, 1, 2, nn, nn + 1, nn + 2, rng.randrange(1, nn + 2)])
+                L = rng.choice([-1, 0, 1, nn, nn - start + 1, nn - start + 2, nn - start, rng.randrange(0, nn + 2)])
+                op += " start=%d L=%d" % (start, L)
+            ops.append(op)
+        if rng.random() < 0.5:
+            n = rng.choice([0, 1, 3, 40, 254, 255, 256, 257, 511, 512, 513, rng.randrange(0, 1200)])
+            b = bytearray(rng.choice([rng.randrange(65, 91), rng.randrange(97, 123), rng.randrange(1, 256), rng.randrange(128, 256)]) for _ in range(n))
+            if rng.random() < 0.15 and n: b[rng.randrange(n)] = 0
+            ops.append("sqcadd hex=%s" % hx(b))
+        return ops
+
+    def type_ops(self, rng):
+        """esl_abc_EncodeType / EncodeTypeMem / DecodeType / ValidateType: the six names in random case, near misses
+        (one byte changed to a neighbour of the letter range, a byte with the top bit set, prefix, extension), junk"""
+        ops = []
+        names = [b"amino", b"rna", b"dna", b"coins", b"dice", b"custom", b"unknown", b"protein", b"", b"nucleic"]
+        for _ in range(rng.randrange(1, 5)):
+            b = bytearray(rng.choice(names))
+            for i in range(len(b)):
+                if rng.random() < 0.4: b[i] ^= 0x20
+            r = rng.random()
+            if r < 0.10 and b: b[rng.randrange(len(b))] = rng.choice([64, 91, 96, 123, 32, 95])
+            elif r < 0.18 and b: i = rng.randrange(len(b)); b[i] = (b[i] + rng.choice([1, -1, 128, 64, -64])) % 256 or 1
+            elif r < 0.24: b = b[:-1]
+            elif r < 0.30: b.append(rng.choice([32, 115, 83, 10, 1, 255]))
+            elif r < 0.34: b = bytearray([rng.choice([32, 120])]) + b
+            mem = rng.random() < 0.5
+            if mem and rng.random() < 0.1 and b: b.insert(rng.randrange(len(b) + 1), 0)
+            elif not mem: b = bytearray(c for c in b if c != 0)
+            ops.append("%s hex=%s" % ("enctypemem" if mem else "enctype", hx(b)))
+        for _ in range(rng.randrange(0, 3)):
+            t = rng.choice([-1, 0, 1, 2, 3, 4, 5, 6, 7, 8, rng.randrange(-1000, 1000), 2 ** 31 - 1, -2 ** 31])
+            ops.append("%s t=%d" % (rng.choice(["dectype", "valtype"]), t))
+        return ops
+
+    def guess_text(self, rng):
+        """a text sequence for esl_sq_GuessAlphabet: letters of one kind in either case, non-letters next to the letter
+        range, 8-bit bytes; sometimes longer than the 10000-letter cutoff of the counting loop"""
+        kind = rng.random()
+        if kind < 0.35: pool = b"ACGT" * 6 + b"N"
+        elif kind < 0.5: pool = b"ACGU" * 6 + b"N"
+        elif kind < 0.8: pool = b"ACDEFGHIKLMNPQRSTVWY"
+        elif kind < 0.9: pool = b"ACDGHKMNRSTVWY"
+        else: pool = b"ACGTNRYKMX"
+        r = rng.random()
+        n = rng.choice([0, 5, 10, 11, 12, 60, 200]) if r < 0.8 else rng.choice([2001, 2500, 9999, 10000, 10001, 10002, 10500])
+        if rng.random() < 0.15: pool = b"N"
+        b = bytearray(rng.choice(pool) for _ in range(n))
+        for i in range(len(b)):
+            if rng.random() < 0.3: b[i] |= 0x20
+        for _ in range(rng.choice([0, 0, 1, 2, n // 50, n // 50 + 1])):
+            if b: b[rng.randrange(len(b))] = rng.choice([64, 91, 96, 123, 45, 42, 32, 200, 0xC1, 0xE1, 69, 88, 110, 85, 84])
+        if n > 9000 and rng.random() < 0.5 and b:       # contamination after the cutoff must not be seen
+            b += bytes(rng.choice(b"EFILPQ") for _ in range(rng.randrange(1, 40)))
+        return bytes(b)
 
     def rand_counts(self, rng):
         """26 letter counts: DNA-like, RNA-like, protein-like, all-N, tiny, borderline 2% contamination"""
@@ -389,6 +483,12 @@ class C08(Prop):
             ct[ord(rng.choice("BJZOXNRYEFIL")) - 65] += extra
         elif r < 0.4: ct[ord(rng.choice("ACGTU")) - 65] = 0
         elif r < 0.45: ct[rng.randrange(26)] = rng.choice([-1, -5])
+        elif r < 0.50: ct[ord(rng.choice("ACGTNEDX")) - 65] += rng.choice([2 ** 31 - 1, 2 ** 31, 2 ** 32, 2 ** 32 + 7, 2 ** 33 + 2 ** 31])   # `int x = ct[...]`
+        elif r < 0.55 and n > 0:
+            # exact boundary of the 2% test: other = floor(n'/50) or one more, with n' = n + other
+            k = rng.choice(["D", "H", "K", "M", "R", "S", "V", "W", "Y", "X", "B"])
+            other = n // 49 + rng.choice([-1, 0, 1])
+            ct[ord(k) - 65] += max(0, other)
         return ct
 
     def custom_case(self, rng, hb, idx):
@@ -535,6 +635,48 @@ class C08(Prop):
                 else:
                     a = None
                 continue
+            if name in ("enctype", "enctypemem"):
+                src = unhex(d["hex"])
+                want = {b"amino": 3, b"rna": 1, b"dna": 2, b"coins": 4, b"dice": 5, b"custom": 6}.get(bytes(src).lower() if all(c < 128 for c in src) else b"?", 0)
+                if l != "ok %d" % want:
+                    return Failure("monitor", "%s(%r) answers %r, documented code %d" % (name, bytes(src), l, want))
+                continue
+            if name == "dectype":
+                t = int(d["t"]); nm = {0: b"unknown", 1: b"RNA", 2: b"DNA", 3: b"amino", 4: b"coins", 5: b"dice", 6: b"custom"}.get(t)
+                if (nm is None and not l.startswith("exception einval null")) or (nm is not None and l != "ok " + hx(nm)):
+                    return Failure("monitor", "DecodeType(%d) answers %r" % (t, l))
+                continue
+            if name == "valtype":
+                t = int(d["t"])
+                if l != ("ok" if 1 <= t <= 6 else "fail"):
+                    return Failure("monitor", "ValidateType(%d) answers %r" % (t, l))
+                continue
+            if name == "sqguess":
+                src = unhex(d["hex"]); ct = [0] * 26; nl = 0
+                for c in src:
+                    if 65 <= c <= 90 or 97 <= c <= 122:
+                        ct[(c & 0xDF) - 65] += 1; nl += 1
+                        if nl > 10000: break
+                t = int(kv(l).get("type", -1))
+                if (l.split()[0] == "ok") != (t != 0): return Failure("monitor", "esl_sq_GuessAlphabet status/type inconsistent: %s" % l)
+                if nl <= 10 and t != 0: return Failure("monitor", "esl_sq_GuessAlphabet guesses type %d from %d letters" % (t, nl))
+                if t in (1, 2) and any(ct[ord(c) - 65] > 0 for c in "EFIJLOPQZ"):
+                    return Failure("monitor", "esl_sq_GuessAlphabet calls a sequence with amino-only letters nucleic")
+                if t == 3 and not any(ct[ord(c) - 65] > 0 for c in "DEFHIJKLMOPQRSVWYZ"):
+                    return Failure("monitor", "esl_sq_GuessAlphabet calls a sequence without any amino-specific letter amino")
+                if t in (1, 2) and not (nl > 2000 and ct[13] == nl):
+                    other = nl - sum(ct[ord(c) - 65] for c in ("ACGTN" if t == 2 else "ACGUN"))
+                    if 50 * other > nl or any(ct[ord(c) - 65] == 0 for c in ("ACGT" if t == 2 else "ACGU")):
+                        return Failure("monitor", "esl_sq_GuessAlphabet answers %s on a composition outside the documented thresholds" % ("DNA" if t == 2 else "RNA"))
+                continue
+            if name == "sqcadd":
+                src = unhex(d["hex"]); want = bytes(c for c in src if c != 0)
+                r = kv(l)
+                if unhex(r.get("seq", "-")) != want + b"\0" or int(r.get("n", -1)) != len(want) or int(r.get("salloc", 0)) < len(want) + 1:
+                    return Failure("monitor", "esl_sq_CAddResidue: sequence/length/allocation wrong: %s" % l[:80])
+                if r.get("d2x") != "exception-einval":
+                    return Failure("monitor", "esl_sq_ConvertDegen2X on a text-mode sequence answers %s" % r.get("d2x"))
+                continue
             if a is None:
                 continue
             if name in ("equiv", "caseins", "degen", "ignored"):
@@ -609,6 +751,28 @@ class C08(Prop):
                 tol = (1e-9 if name == "davg" else 1e-4) * (max(abs(v) for v in members) + 1e-300)
                 if math.isnan(got) or (not math.isinf(want) and abs(got - want) > tol):
                     return Failure("monitor", "%s x=%d: %r is not the mean %r over the degeneracy set" % (name, x, got, want))
+            elif name == "sqxadd":
+                codes = [c for c in unhex(d["codes"]) if c != 255]; r = kv(l); n = len(codes)
+                if unhex(r.get("dsq", "-")) != bytes([255] + codes + [255]) or int(r.get("n", -1)) != n or int(r.get("salloc", 0)) < n + 2:
+                    return Failure("monitor", "esl_sq_XAddResidue: sequence/length/allocation wrong: %s" % l[:80])
+                want2 = bytes([255] + [(a.Kp - 3 if a.K < c < a.Kp - 2 else c) for c in codes] + [255])
+                if r.get("d2x") != "ok" or unhex(r.get("dsq2", "-")) != want2:
+                    return Failure("monitor", "esl_sq_ConvertDegen2X: not every degenerate code became the 'any' code")
+                start = int(d.get("start", 1)); L = int(d.get("L", n))
+                if (r.get("cr") == "erange") != (start < 1 or start + L > n + 1) or r.get("cr") not in ("ok", "erange"):
+                    return Failure("monitor", "esl_sq_CountResidues(start=%d, L=%d) on n=%d answers %s" % (start, L, n, r.get("cr")))
+                f = [unfbits(v) for v in r["f"].split(",")]
+                if r.get("cr") == "erange":
+                    if any(v != 0.0 for v in f): return Failure("monitor", "esl_sq_CountResidues changed the counts although it answered eslERANGE")
+                elif all(a.ndegen[x] == sum(1 for y in range(a.K) if a.degen[x][y]) for x in range(a.Kp)):
+                    want = [0.0] * a.K
+                    for c in codes[start - 1:start - 1 + max(0, L)]:
+                        if c < a.K: want[c] += 1.0
+                        elif a.K < c < a.Kp - 2 and a.ndegen[c]:
+                            for y in range(a.K):
+                                if a.degen[c][y]: want[y] += 1.0 / a.ndegen[c]
+                    if any(math.isnan(f[y]) or abs(f[y] - want[y]) > 1e-3 * (1 + want[y]) for y in range(a.K)):
+                        return Failure("monitor", "esl_sq_CountResidues: counts are not the equal split over the degeneracy sets of the residues in range")
             elif name == "validateseq":
                 src = unhex(d["hex"])
                 bad = [c for c in src if (c >= 128 if "noabc" in d else not (c < 128 and a.inmap[c] < a.Kp))]
